@@ -4,7 +4,8 @@ package configmgr
 
 // C14 end to end through the configuration manager: a sequence of candidates is committed (the first one optionally
 // through the start-up path LoadStartupConfig + ApplyLoadedConfig) while reader goroutines call the lock-free
-// LookupSubscriberGroup.  Printed (deterministic): per candidate the verdict and the answers after the commit returned.
+// LookupSubscriberGroup.  Printed (deterministic): per candidate the verdict (nil-ness of the error), whether any handler
+// was applied / rolled back for it, and the answers after the commit returned.
 // Checked inside (run with -race): every concurrent answer is, as a whole GroupMatch (name, group pointer, range
 // pointer), the answer of ONE accepted generation that was current at some moment of the call; per reader the
 // generations never go backwards.
@@ -28,14 +29,40 @@ import (
 	"github.com/veesix-networks/osvbng/pkg/handlers/conf/paths"
 )
 
-type vcHandler struct{ path paths.Path }
+// the handler records every call: a candidate that is rejected must not have reached any handler ("rejected BEFORE
+// commit": Apply is what touches the data plane and the routing daemon)
+type vcHandler struct {
+	path      paths.Path
+	applies   atomic.Int64
+	rollbacks atomic.Int64
+}
 
 func (h *vcHandler) Validate(ctx context.Context, hctx *conf.HandlerContext) error { return nil }
-func (h *vcHandler) Apply(ctx context.Context, hctx *conf.HandlerContext) error    { return nil }
-func (h *vcHandler) Rollback(ctx context.Context, hctx *conf.HandlerContext) error { return nil }
-func (h *vcHandler) PathPattern() paths.Path                                       { return h.path }
-func (h *vcHandler) Dependencies() []paths.Path                                    { return nil }
-func (h *vcHandler) Callbacks() *conf.Callbacks                                    { return nil }
+func (h *vcHandler) Apply(ctx context.Context, hctx *conf.HandlerContext) error {
+	h.applies.Add(1)
+	return nil
+}
+func (h *vcHandler) Rollback(ctx context.Context, hctx *conf.HandlerContext) error {
+	h.rollbacks.Add(1)
+	return nil
+}
+func (h *vcHandler) PathPattern() paths.Path    { return h.path }
+func (h *vcHandler) Dependencies() []paths.Path { return nil }
+func (h *vcHandler) Callbacks() *conf.Callbacks { return nil }
+
+// handler calls since the last call of this function: "h0" none, "h+" applied and not rolled back,
+// "hA<n>R<m>" anything else
+func (h *vcHandler) delta(lastA, lastR *int64) string {
+	a, r := h.applies.Load()-*lastA, h.rollbacks.Load()-*lastR
+	*lastA, *lastR = h.applies.Load(), h.rollbacks.Load()
+	switch {
+	case a == 0 && r == 0:
+		return "h0"
+	case a > 0 && r == 0:
+		return "h+"
+	}
+	return fmt.Sprintf("hA%dR%d", a, r)
+}
 
 func vcDecode(tok string) string {
 	if tok == "e" {
@@ -125,7 +152,9 @@ func vcCase(f []string, dir string) (res string) {
 	}
 
 	cd := NewConfigManager()
-	cd.registry.MustRegister(&vcHandler{path: "interfaces.<*>"})
+	hnd := &vcHandler{path: "interfaces.<*>"}
+	cd.registry.MustRegister(hnd)
+	var lastA, lastR int64
 	cd.startupConfigPath = filepath.Join(dir, "startup-config.yaml")
 	cd.versionDir = filepath.Join(dir, "versions")
 	cd.disableVersions = true
@@ -231,13 +260,18 @@ func vcCase(f []string, dir string) (res string) {
 				}
 			}
 		}
+		// verdict by nil-ness only (no error text): an error at either stage is a rejection; a configuration that the
+		// validator itself accepts must not fail to start
 		v := "valid"
 		if err != nil {
 			v = "rejected"
-			if !strings.Contains(err.Error(), "alidation failed") {
-				v = "ERROR:" + stage + ":" + strings.Join(strings.Fields(fmt.Sprintf("%.60v", err)), "_")
+			if stage == "apply" {
+				if st, _ := cd.GetStartup(); st != nil && subscriber.ValidateMatchIndex(st.SubscriberGroups) == nil {
+					v = "ERROR:start-up-failed-on-a-configuration-ValidateMatchIndex-accepts"
+				}
 			}
 		}
+		v += ":" + hnd.delta(&lastA, &lastR)
 		out = append(out, v+":"+quiescent())
 		cfgs[0], _ = cd.GetRunning()
 		first = 1
@@ -347,17 +381,19 @@ func vcCase(f []string, dir string) (res string) {
 				cd.CloseCandidateSession(sid)
 			}
 		}
+		// verdict by nil-ness only (no error text), cross-checked with the validator's own nil-ness
 		switch {
 		case err == nil:
 			v = "valid"
-		case strings.Contains(err.Error(), "pre-commit validation failed"):
+		case !acc[g]:
 			v = "rejected"
 		default:
-			v = "ERROR:" + strings.Join(strings.Fields(fmt.Sprintf("%.60v", err)), "_")
+			v = "ERROR:commit-failed-on-a-configuration-ValidateMatchIndex-accepts"
 		}
-		if (v == "valid") != acc[g] {
-			v += "!DIFFERS-FROM-ValidateMatchIndex"
+		if err == nil && !acc[g] {
+			v += "!COMMITTED-ALTHOUGH-ValidateMatchIndex-REJECTS"
 		}
+		v += ":" + hnd.delta(&lastA, &lastR)
 		done.Store(int64(g))
 		out = append(out, v+":"+quiescent())
 	}
